@@ -640,11 +640,35 @@ def buildTrees (C : NewickCodec) (transl : Option (List (String × String))) (ta
       match t? with
       | none => none
       | some t =>
+        -- since fix 6a194b0 a tree may bear a subset of the taxa of the TAXA block
+        let okTaxa : Bool := match taxlabels with
+          | none => true
+          | some labs => t.tipNames.all labs.contains
+        if !okTaxa then none else
+        match buildTrees C transl taxlabels r with
+        | none => none
+        | some d => some ((name, t) :: d)
+
+/-- `buildTrees` BEFORE fix 6a194b0: every label of the TAXA block had to be a tip of every tree
+    (`len(tips) != len(taxlabels)` → error) -/
+def buildTreesAllTaxa (C : NewickCodec) (transl : Option (List (String × String))) (taxlabels : Option (List String)) :
+    List (String × Txt) → Option NexDoc
+  | [] => some []
+  | (name, s) :: r =>
+    match C.parse (s ++ [';']) with
+    | none => none
+    | some t0 =>
+      let t? : Option T := match transl with
+        | some m => renameChecked m t0
+        | none => some t0
+      match t? with
+      | none => none
+      | some t =>
         let okTaxa : Bool := match taxlabels with
           | none => true
           | some labs => t.tipNames.all labs.contains && t.tipNames.length == labs.length
         if !okTaxa then none else
-        match buildTrees C transl taxlabels r with
+        match buildTreesAllTaxa C transl taxlabels r with
         | none => none
         | some d => some ((name, t) :: d)
 
@@ -663,6 +687,25 @@ def parse (C : NewickCodec) (doc : Txt) : PRes NexDoc :=
        | none => .ok []
        | some l =>
          match buildTrees C st.transl st.taxlabels l with
+         | none => .err
+         | some d => .ok d)
+  | _ => .err
+
+/-- `Parse()` BEFORE fix 6a194b0 (`buildTreesAllTaxa`) -/
+def parseAllTaxa (C : NewickCodec) (doc : Txt) : PRes NexDoc :=
+  let toks := scan doc
+  if toks.contains .loneCR then .unsupported else
+  match toks with
+  | .kw .nexus _ :: r =>
+    (match parseLoop (r.length + 1) r {} with
+     | .err => .err
+     | .unsupported => .unsupported
+     | .ok st =>
+       if st.ntax != -1 && st.ntax != ((st.taxlabels.getD []).length : Int) then .err else
+       match st.trees with
+       | none => .ok []
+       | some l =>
+         match buildTreesAllTaxa C st.transl st.taxlabels l with
          | none => .err
          | some d => .ok d)
   | _ => .err
